@@ -18,7 +18,8 @@ RULE = ('reference-encoded images of each format that has both reader '
         'height/pressure, humidity, vertical diffusivity, wind, generic '
         'one-3D) with nx != ny != nz, 1-4 steps, start hours placing steps '
         'across midnight and year ends; both readers run under a '
-        'backward-jump budget. Cases one reader rejects by raising are outside '
+        'backward-jump budget; plus the bundled sample file of each format. '
+        'Cases one reader rejects by raising are outside '
         'the property ("that both accept") and are counted separately. '
         'non-trivial = both readers accepted; distinct = digest of the spec.')
 ASSUMPTIONS = [
